@@ -32,7 +32,7 @@ RULE = (
     "stop, send inert when done/error/stopped, stop harmless in every status and leaving nothing alive, nothing "
     "delivered after stop even when virtual time passes. Sync threads (E3p): stop() on one virtual thread against an after-timer "
     "thread, a caller thread and a second stop(), every interleaving at line granularity inside stop / send / _process_event_queue / "
-    "the timer thread body with at most the stated preemptions; async: 2 and 3 start() calls issued in the same loop iteration while the initial entry is suspended (one run loop, nothing processed before the entry finished); oracle for threads: no thread raises, status stopped, nothing runs in a send() "
+    "the timer thread body with at most the stated preemptions; machines that become done / stopped / failed INSIDE start() with a raised event still queued (nothing may run for it); async: 2 and 3 start() calls issued in the same loop iteration while the initial entry is suspended (one run loop, nothing processed before the entry finished); oracle for threads: no thread raises, status stopped, nothing runs in a send() "
     "that started after stop() returned, no thread left alive, queue empty; distinct_nontrivial = distinct canonical states + distinct schedules"
 )
 BOUNDS = {"quick": "depth 5, both engines; sync threads: stop() vs after-timer / caller threads, every line-level interleaving with <=1-2 preemptions", "thorough": "depth 7, both engines; sync threads: <=2-3 preemptions"}
@@ -345,6 +345,8 @@ def units(tier: str) -> List[Any]:
     depth = 5 if tier == "quick" else 7
     core.install_logging()
     us: List[Any] = []
+    for kind in ("done", "stop", "error"):
+        us.append(("startterm", kind))
     us.append(("concstart", 2))
     us.append(("concstart", 3))
     from . import c14_preempt as PP
@@ -368,6 +370,52 @@ def units(tier: str) -> List[Any]:
         for seq in level:
             us.append(("sub", engine, seq, depth))
     return us
+
+
+def run_start_terminal(kind: str) -> Dict[str, Any]:
+    """The machine reaches a terminal status INSIDE start() while an event raised by an entry action is still queued:
+    kind 'done' (initial state final), 'stop' (an entry action calls stop()), 'error' (initial state invokes a failing service
+    without onError).  Nothing may run for the queued event, on either engine."""
+    res = dict(states=0, transitions=0, executions=0, distinct=[], violations=[], samples=[], caps=[])
+    for engine in ENGINES:
+        is_async = engine == "async"
+        if is_async and kind == "error":
+            continue  # async services run as tasks: their failure is not inside start()
+        if is_async:
+            async def stopper(interp, ctx, ev, ad):
+                await interp.stop()
+        else:
+            def stopper(interp, ctx, ev, ad):
+                interp.stop()
+        first: Dict[str, Any] = {"type": "final"} if kind == "done" else ({"entry": ["stopper"]} if kind == "stop" else {"invoke": {"id": "b", "src": "bad"}})
+        cfg = {"id": "m", "initial": "first", "entry": [A.raise_("PING"), "mk:root"],
+               "states": {"first": first, "other": {"entry": ["mk:other"]}},
+               "on": {"PING": {"target": ".other", "actions": ["tr:ping"]}}}
+        h = Harness(cfg, with_plugin=True, threads=True, budget=2000, services={"bad": bad_service}, extra_actions={"stopper": stopper})
+        d = h.driver(engine)
+        try:
+            d.start()
+            d.settle()
+            log = list(h.rec.log)
+            ran = [e[1] for e in log if e[0] == "A" and e[1] in ("tr:ping", "mk:other")]
+            status = d.interp.status
+            conf = sorted(s.id for s in d.interp._active_state_nodes)
+            res["executions"] += 1
+            res["distinct"].append(hash(("startterm", kind, engine)))
+            want_status = {"done": "done", "stop": "stopped", "error": "error"}[kind]
+            bad = []
+            if status != want_status:
+                bad.append(("start-terminal-status", f"status {status}, expected {want_status}"))
+            if ran:
+                bad.append(("queued-event-processed-on-terminal-interpreter", f"{ran} ran although the interpreter was already {status} when start() drained its queue; configuration {conf}"))
+            for clause, detail in bad:
+                res["violations"].append(dict(signature=f"C14|{clause}|{engine}|start-{kind}", clause=clause,
+                                              what=f"{engine}: {clause}: {detail}; machine terminal inside start() ({kind}) with a raised event queued", size=1,
+                                              replay=dict(engine="startterm", kind=kind)))
+        finally:
+            d.close()
+    res["samples"].append(dict(scenario="terminal inside start()", kind=kind))
+    return res
 
 
 def run_concurrent_start(k: int) -> Dict[str, Any]:
@@ -430,6 +478,8 @@ def run_unit(unit):
         return unit[2]
     if unit[0] == "concstart":
         return run_concurrent_start(unit[1])
+    if unit[0] == "startterm":
+        return run_start_terminal(unit[1])
     if unit[0] == "preempt":
         from . import c14_preempt as P
         from ..preempt import unit_result
@@ -451,6 +501,11 @@ def run_unit(unit):
 
 
 def replay(payload):
+    if payload.get("engine") == "startterm":
+        r = run_start_terminal(payload["kind"])
+        for v in r["violations"]:
+            print("  ", v["what"][:300])
+        return r["violations"]
     if payload.get("engine") == "concstart":
         r = run_concurrent_start(payload["k"])
         for v in r["violations"]:
